@@ -6,12 +6,33 @@ that ever waits on the group's semaphore is the joiner, so
 * permits banked in the semaphore + the permit held by the joiner = length of the done queue;
 * a parked joiner has no permit, the semaphore is at 0 (so the done queue is empty) and some
   member is still pending;
-* everything ever popped was popped by the join loop. -/
+* (`s = true`, no `next_done()` caller at all) everything ever popped was popped by the join loop.
+
+All of it except the last point also holds when other tasks do call `next_done()` but are always
+served at once (`s = false`, `NoParking`): the starvation of F12 needs a caller that had to
+wait. -/
 namespace Aiorpcx.C09
 
 def Action.isNextDone : Action → Bool
   | .nextDone .. => true
   | _ => false
+
+/-- would a `next_done()` caller have to wait on the semaphore in this state? (then the action
+reports `Obs.nextDoneBlocked`) -/
+def G.consumerWouldPark (g : G) : Bool :=
+  !(g.doneq.isEmpty && g.pending.isEmpty) && (g.sem == 0 || !g.waiters.isEmpty)
+
+theorem parks_iff_blocked_obs (g : G) (k : Nat) (p : List Nat) :
+    Obs.nextDoneBlocked k ∈ (g.apply (.nextDone k p)).2 ↔ g.consumerWouldPark = true := by
+  unfold G.apply G.consumerWouldPark
+  simp only []
+  cases h1 : (g.doneq.isEmpty && g.pending.isEmpty)
+  · cases h2 : (g.sem == 0 || !g.waiters.isEmpty)
+    · simp only [Bool.false_eq_true, ↓reduceIte, Bool.not_false, Bool.and_false, iff_false]
+      unfold G.wake
+      cases g.doneq <;> simp
+    · simp
+  · simp
 
 def hpNat (g : G) : Nat :=
   match g.joiner with
@@ -23,32 +44,34 @@ def isBlocked (g : G) : Bool :=
   | some j => j.blocked
   | none => false
 
-structure NInv (g : G) : Prop where
+structure NInv (s : Bool) (g : G) : Prop where
   waiters : g.waiters = if isBlocked g then [Waiter.joiner] else []
   sem : g.sem + hpNat g = g.doneq.length
   blocked : ∀ j, g.joiner = some j → j.blocked = true →
     j.hasPermit = false ∧ g.sem = 0 ∧ g.pending ≠ []
-  popped : g.popped = g.joinPopped
+  popped : s = true → g.popped = g.joinPopped
 
 /-- the state in which `Semaphore.release()` is called: a new entry was just queued -/
-structure RelPre (g : G) : Prop where
+structure RelPre (s : Bool) (g : G) : Prop where
   waiters : g.waiters = if isBlocked g then [Waiter.joiner] else []
   sem : g.sem + hpNat g + 1 = g.doneq.length
   blocked : ∀ j, g.joiner = some j → j.blocked = true → j.hasPermit = false ∧ g.sem = 0
-  popped : g.popped = g.joinPopped
+  popped : s = true → g.popped = g.joinPopped
+
+variable {s : Bool}
 
 /-- result of a primitive: the invariant holds again, and a joiner that was not parked is left
 alone -/
-def NStep (g g' : G) : Prop := NInv g' ∧ (isBlocked g = false → g'.joiner = g.joiner)
+def NStep (s : Bool) (g g' : G) : Prop := NInv s g' ∧ (isBlocked g = false → g'.joiner = g.joiner)
 
-theorem NStep.trans {a b c : G} (h1 : NStep a b) (h2 : NStep b c) : NStep a c := by
+theorem NStep.trans {a b c : G} (h1 : NStep s a b) (h2 : NStep s b c) : NStep s a c := by
   refine ⟨h2.1, ?_⟩
   intro hb
   have e1 := h1.2 hb
   have hb' : isBlocked b = false := by simp only [isBlocked, e1] at hb ⊢; exact hb
   rw [h2.2 hb', e1]
 
-theorem ninv_release (g : G) (h : RelPre g) : NStep g g.release.1 := by
+theorem ninv_release (g : G) (h : RelPre s g) : NStep s g g.release.1 := by
   obtain ⟨hw, hsem, hbl, hpo⟩ := h
   obtain ⟨wait, fixed, mem, pending, daemons, doneq, sem, waiters, completed, joined, joiner, log,
     popped, joinPopped⟩ := g
@@ -92,10 +115,10 @@ theorem ninv_release (g : G) (h : RelPre g) : NStep g g.release.1 := by
 
 /-- a state change that leaves the semaphore, the queues and the joiner alone and does not empty
 `pending` keeps the invariant -/
-theorem ninv_frame {g g' : G} (h : NInv g) (hw : g'.waiters = g.waiters) (hs : g'.sem = g.sem)
+theorem ninv_frame {g g' : G} (h : NInv s g) (hw : g'.waiters = g.waiters) (hs : g'.sem = g.sem)
     (hd : g'.doneq = g.doneq) (hj : g'.joiner = g.joiner) (hp : g.pending ≠ [] → g'.pending ≠ [])
-    (hpo : g'.popped = g.popped) (hjp : g'.joinPopped = g.joinPopped) : NStep g g' := by
-  refine ⟨⟨?_, ?_, ?_, by rw [hpo, hjp, h.popped]⟩, fun _ => hj⟩
+    (hpo : g'.popped = g.popped) (hjp : g'.joinPopped = g.joinPopped) : NStep s g g' := by
+  refine ⟨⟨?_, ?_, ?_, fun hs => by rw [hpo, hjp, h.popped hs]⟩, fun _ => hj⟩
   · rw [hw, h.waiters]; unfold isBlocked; rw [hj]
   · rw [hs, hd, ← h.sem]; unfold hpNat; rw [hj]
   · intro j hj' hb
@@ -103,10 +126,10 @@ theorem ninv_frame {g g' : G} (h : NInv g) (hw : g'.waiters = g.waiters) (hs : g
     obtain ⟨a, b, c⟩ := h.blocked j hj' hb
     exact ⟨a, by rw [hs]; exact b, hp c⟩
 
-theorem NStep.refl {g : G} (h : NInv g) : NStep g g := ⟨h, fun _ => rfl⟩
+theorem NStep.refl {g : G} (h : NInv s g) : NStep s g g := ⟨h, fun _ => rfl⟩
 
-theorem ninv_finishMem (g : G) (i : Nat) (o : Outcome) (h : NInv g) :
-    NStep g (g.finishMem i o).1 := by
+theorem ninv_finishMem (g : G) (i : Nat) (o : Outcome) (h : NInv s g) :
+    NStep s g (g.finishMem i o).1 := by
   unfold G.finishMem
   cases hf : g.find i with
   | none => exact NStep.refl h
@@ -116,7 +139,7 @@ theorem ninv_finishMem (g : G) (i : Nat) (o : Outcome) (h : NInv g) :
     · exact NStep.refl h
     · split
       · exact ninv_frame h rfl rfl rfl rfl id rfl rfl
-      · have pre : RelPre
+      · have pre : RelPre s
             { (g.setMem i fun m => { m with status := .done, outcome := o }) with
               pending := (g.setMem i fun m => { m with status := .done, outcome := o }).pending.filter (· != i),
               doneq := (g.setMem i fun m => { m with status := .done, outcome := o }).doneq ++ [i],
@@ -156,11 +179,11 @@ theorem pending_add_ne_nil {g g' : G} {i : Nat} {d : Bool} {ch : List Child}
           rw [he] at this; simp at this
 
 theorem ninv_add {g g' : G} {i : Nat} {d : Bool} {ch : List Child} (ha : g.add i d ch = some g')
-    (h : NInv g) : NStep g g' := by
+    (h : NInv s g) : NStep s g g' := by
   obtain ⟨a, b, c, d', e, f, k⟩ := pending_add_ne_nil ha
   exact ninv_frame h a b c d' e f k
 
-theorem ninv_addChildren (g : G) (cs : List Child) (h : NInv g) : NStep g (g.addChildren cs).1 := by
+theorem ninv_addChildren (g : G) (cs : List Child) (h : NInv s g) : NStep s g (g.addChildren cs).1 := by
   induction cs generalizing g with
   | nil => exact NStep.refl h
   | cons c cs ih =>
@@ -171,7 +194,7 @@ theorem ninv_addChildren (g : G) (cs : List Child) (h : NInv g) : NStep g (g.add
       have h1 := ninv_add ha h
       exact NStep.trans h1 (ih g' h1.1)
 
-theorem ninv_deliverCancel (g : G) (i : Nat) (h : NInv g) : NStep g (g.deliverCancel i).1 := by
+theorem ninv_deliverCancel (g : G) (i : Nat) (h : NInv s g) : NStep s g (g.deliverCancel i).1 := by
   unfold G.deliverCancel
   cases hf : g.find i with
   | none => exact NStep.refl h
@@ -182,7 +205,7 @@ theorem ninv_deliverCancel (g : G) (i : Nat) (h : NInv g) : NStep g (g.deliverCa
     | canc => exact ninv_finishMem g i .cancelled h
     | run =>
       simp only []
-      have h1 : NStep g (g.setMem i fun m => { m with status := .canc }) :=
+      have h1 : NStep s g (g.setMem i fun m => { m with status := .canc }) :=
         ninv_frame h rfl rfl rfl rfl id rfl rfl
       have h2 := ninv_addChildren (g.setMem i fun m => { m with status := .canc }) m.children h1.1
       generalize (g.setMem i fun m => { m with status := .canc }).addChildren m.children = r at h2 ⊢
@@ -191,8 +214,8 @@ theorem ninv_deliverCancel (g : G) (i : Nat) (h : NInv g) : NStep g (g.deliverCa
       | nil => exact NStep.trans h1 h2
       | cons c cs => exact NStep.trans (NStep.trans h1 h2) (ninv_finishMem _ i .exc h2.1)
 
-theorem ninv_deliverCancels (g : G) (l : List Nat) (h : NInv g) :
-    NStep g (g.deliverCancels l).1 := by
+theorem ninv_deliverCancels (g : G) (l : List Nat) (h : NInv s g) :
+    NStep s g (g.deliverCancels l).1 := by
   induction l generalizing g with
   | nil => exact NStep.refl h
   | cons i is ih =>
@@ -201,9 +224,9 @@ theorem ninv_deliverCancels (g : G) (l : List Nat) (h : NInv g) :
     exact NStep.trans h1 (ih _ h1.1)
 
 /-- replacing the record of a joiner that is not parked by one with the same permit flag -/
-theorem ninv_setJ {g : G} {j : Joiner} (h : NInv g) (hj : g.joiner = some j)
+theorem ninv_setJ {g : G} {j : Joiner} (h : NInv s g) (hj : g.joiner = some j)
     (hb : j.blocked = false) (j' : Joiner) (hb' : j'.blocked = false)
-    (hp' : j'.hasPermit = j.hasPermit) : NInv (setJ g j') := by
+    (hp' : j'.hasPermit = j.hasPermit) : NInv s (setJ g j') := by
   refine ⟨?_, ?_, ?_, h.popped⟩
   · have := h.waiters
     simp only [isBlocked, hj, hb] at this
@@ -219,8 +242,8 @@ theorem ninv_setJ {g : G} {j : Joiner} (h : NInv g) (hj : g.joiner = some j)
     rw [hb'] at hbb; cases hbb
 
 theorem ninv_jstep {g : G} {perm : List Nat} {j : Joiner} {g' : G} {o : List Obs}
-    (hj : g.joiner = some j) (hb : j.blocked = false) (h : NInv g)
-    (hs : JStep g perm j g' o) : NInv g' := by
+    (hj : g.joiner = some j) (hb : j.blocked = false) (h : NInv s g)
+    (hs : JStep g perm j g' o) : NInv s g' := by
   have hnb : isBlocked g = false := by simp [isBlocked, hj, hb]
   cases hs with
   | crSweep hp hsn =>
@@ -246,7 +269,7 @@ theorem ninv_jstep {g : G} {perm : List Nat} {j : Joiner} {g' : G} {o : List Obs
         simp only [setJ, Option.some.injEq] at hj'
         subst hj'
         simp [hb] at hbb
-      · simp only [setJ, G.popT, h.popped]
+      · intro hs; simp only [setJ, G.popT, h.popped hs]
   | nowait hp hperm _ => exact ninv_setJ h hj hb _ hb rfl
   | nothingLeft hp hperm _ _ _ => exact ninv_setJ h hj hb _ hb rfl
   | park hp hperm hw hne hsw =>
@@ -280,7 +303,7 @@ theorem ninv_jstep {g : G} {perm : List Nat} {j : Joiner} {g' : G} {o : List Obs
       subst hj'
       simp [hb] at hbb
   | finExit hp hsn _ =>
-    have h0 : NInv { g with joined := true } := ⟨h.waiters, h.sem, h.blocked, h.popped⟩
+    have h0 : NInv s { g with joined := true } := ⟨h.waiters, h.sem, h.blocked, h.popped⟩
     exact ninv_setJ (g := { g with joined := true }) h0 hj hb _ hb rfl
   | finSweep hp hsn _ =>
     have h1 := ninv_deliverCancels g (orderBy perm g.rem) h
@@ -288,7 +311,7 @@ theorem ninv_jstep {g : G} {perm : List Nat} {j : Joiner} {g' : G} {o : List Obs
   | finClear snap hp hsn _ => exact ninv_setJ h hj hb _ hb rfl
 
 theorem ninv_runJoiner (perm : List Nat) : ∀ (fuel : Nat) (g : G), g.fixed = true →
-    NInv g → NInv (g.runJoiner perm fuel).1
+    NInv s g → NInv s (g.runJoiner perm fuel).1
   | 0, _, _, h => h
   | fuel + 1, g, hfix, h => by
     unfold G.runJoiner
@@ -302,8 +325,9 @@ theorem ninv_runJoiner (perm : List Nat) : ∀ (fuel : Nat) (g : G), g.fixed = t
         have := hts.fixed_eq; simp only [G.core] at this; rw [this, hfix]
       exact ninv_runJoiner perm fuel g1 hfix1 (ninv_jstep hj hb h hstep)
 
-theorem ninv_apply (g : G) (a : Action) (hnc : a.isNextDone = false) (h : NInv g) :
-    NInv (g.apply a).1 := by
+theorem ninv_apply (g : G) (a : Action)
+    (hnc : a.isNextDone = false ∨ (s = false ∧ g.consumerWouldPark = false)) (h : NInv s g) :
+    NInv s (g.apply a).1 := by
   unfold G.apply
   cases a with
   | spawn i d ch =>
@@ -390,25 +414,91 @@ theorem ninv_apply (g : G) (a : Action) (hnc : a.isNextDone = false) (h : NInv g
         · intro j' hj' hbb
           simp only [setJ, Option.some.injEq] at hj'; subst hj'
           exact h.blocked j hj hbb
-  | nextDone k p => simp [Action.isNextDone] at hnc
+  | nextDone k p =>
+    rcases hnc with hnc | ⟨hs, hpark⟩
+    · simp [Action.isNextDone] at hnc
+    · simp only []
+      unfold G.consumerWouldPark at hpark
+      split
+      · exact h
+      · rename_i h1
+        split
+        · rename_i h2
+          simp [h1, h2] at hpark
+        · rename_i h2
+          have h2' : g.sem ≠ 0 ∧ g.waiters = [] := by simpa [List.isEmpty_iff] using h2
+          have hsem := h.sem
+          unfold G.wake
+          cases hd : g.doneq with
+          | nil =>
+            exfalso
+            rw [hd] at hsem
+            simp at hsem
+            exact h2'.1 hsem.1
+          | cons t rest =>
+            simp only []
+            rw [hd] at hsem
+            refine ⟨?_, ?_, ?_, ?_⟩
+            · simp only [isBlocked]; exact h.waiters
+            · simp only [hpNat, List.length_cons] at hsem ⊢; omega
+            · intro j hj hb
+              exact absurd (h.blocked j hj hb).2.1 h2'.1
+            · intro hs'; rw [hs] at hs'; cases hs'
 
-theorem ninv_init (p : Policy) : NInv { wait := p } :=
-  ⟨by simp [isBlocked], by simp [hpNat], by intro j hj; simp at hj, rfl⟩
+theorem ninv_init (p : Policy) : NInv s { wait := p } :=
+  ⟨by simp [isBlocked], by simp [hpNat], by intro j hj; simp at hj, fun _ => rfl⟩
 
-theorem ninv_react (g : G) (a : Action) (hnc : a.isNextDone = false) (hfix : g.fixed = true)
-    (h : NInv g) : NInv (react g a).1 := by
+theorem ninv_react (g : G) (a : Action)
+    (hnc : a.isNextDone = false ∨ (s = false ∧ g.consumerWouldPark = false))
+    (hfix : g.fixed = true) (h : NInv s g) : NInv s (react g a).1 := by
   rw [react_fst]
   have hfix1 : (g.apply a).1.fixed = true := by
     have := (tstep_apply g a).fixed_eq; simp only [G.core] at this; rw [this, hfix]
   exact ninv_runJoiner _ _ _ hfix1 (ninv_apply g a hnc h)
 
 theorem ninv_runAll (g : G) (as : List Action) (hnc : ∀ a ∈ as, a.isNextDone = false)
-    (hg : Good g) (h : NInv g) : NInv (runAll g as).1 := by
+    (hg : Good g) (h : NInv s g) : NInv s (runAll g as).1 := by
   induction as generalizing g with
   | nil => exact h
   | cons a as ih =>
     simp only [runAll]
     exact ih _ (fun b hb => hnc b (by simp [hb])) (good_react g a hg)
-      (ninv_react g a (hnc a (by simp)) hg.fixed h)
+      (ninv_react g a (Or.inl (hnc a (by simp))) hg.fixed h)
+
+/-- along the history, no `next_done()` caller ever has to wait: each one is served (or told
+"nothing left") at once -/
+def NoParking (g : G) : List Action → Prop
+  | [] => True
+  | a :: as => (a.isNextDone = true → g.consumerWouldPark = false) ∧ NoParking (react g a).1 as
+
+theorem noParking_of_noNextDone (g : G) (as : List Action)
+    (h : ∀ a ∈ as, a.isNextDone = false) : NoParking g as := by
+  induction as generalizing g with
+  | nil => trivial
+  | cons a as ih =>
+    refine ⟨fun ht => ?_, ih _ (fun b hb => h b (by simp [hb]))⟩
+    rw [h a (by simp)] at ht; cases ht
+
+theorem noParking_append (g : G) (as : List Action) (a : Action) :
+    NoParking g (as ++ [a]) ↔ NoParking g as ∧
+      (a.isNextDone = true → (runAll g as).1.consumerWouldPark = false) := by
+  induction as generalizing g with
+  | nil => simp [NoParking, runAll]
+  | cons b bs ih =>
+    simp only [List.cons_append, NoParking, runAll, ih]
+    constructor
+    · rintro ⟨h1, h2, h3⟩; exact ⟨⟨h1, h2⟩, h3⟩
+    · rintro ⟨⟨h1, h2⟩, h3⟩; exact ⟨h1, h2, h3⟩
+
+theorem ninv_runAll_noParking (g : G) (as : List Action) (hnp : NoParking g as)
+    (hg : Good g) (h : NInv false g) : NInv false (runAll g as).1 := by
+  induction as generalizing g with
+  | nil => exact h
+  | cons a as ih =>
+    simp only [runAll]
+    refine ih _ hnp.2 (good_react g a hg) (ninv_react g a ?_ hg.fixed h)
+    cases hn : a.isNextDone with
+    | false => exact Or.inl rfl
+    | true => exact Or.inr ⟨rfl, hnp.1 hn⟩
 
 end Aiorpcx.C09
